@@ -120,7 +120,7 @@ func gen(r *rand.Rand, i int, tier string) Case {
 	i -= p.wire
 	if i%p.gridEvery == 7 {
 		// full grid: the object must be clean under radix and under escape mode
-		g := genOpts{clean: true, radix: true, escape: true, maxDepth: 3, maxWidth: 5}
+		g := genOpts{clean: true, radix: true, escape: true, pretty: true, maxDepth: 3, maxWidth: 5}
 		kind := "grid"
 		if (i/p.gridEvery)%3 == 2 {
 			// arrays, ratios and all floats over the part of the grid where they are not on the avoid list
@@ -178,6 +178,7 @@ func genPair(r *rand.Rand) Case {
 	if r.IntN(5) == 0 {
 		c.Read = "rfs"
 	}
+	g.pretty = c.Pretty
 	var o *O
 	for {
 		o = randObj(r, g, 0)
@@ -852,7 +853,7 @@ func init() {
 			"distinct = distinct case JSON; non-trivial = at least one print->read pair was judged. " +
 			"Avoid set: 88% of the pair cases, all grid cases and 85% of the seeded wire messages (the clean stream) leave out the constructs listed as open findings " +
 			"(symbol and keyword names outside letters, digits and -*+<>=_$%^~. ; characters the reader rejects after #\\; long floats whose shortest text is not exact at the precision the reader derives; " +
-			"rank-0 and zero-extent arrays; under *print-radix* t ratios and arrays of rank >= 2; under *print-readably* nil strings holding \" \\ or control characters and every float but fractional doubles); " +
+			"rank-0 and zero-extent arrays; under *print-pretty* t symbol names that need |...|; ratios and arrays of rank >= 2 under *print-radix* t and ? in names only while those findings are open; under *print-readably* nil strings holding \" \\ or control characters and every float but fractional doubles); " +
 			"the remaining cases (the dirty stream) and the probe block generate them all",
 		N:        nCases,
 		Gen:      gen,
